@@ -153,14 +153,44 @@ def clause_bc(facts, rep, max_n):
     for g in facts.functions:
         if g.short != 'SerializeImpl':
             continue
-        for bid, i, s in g.stmts():
-            s_ = strip(s)
-            if s_.get('k') == 'bin' and s_['op'] == '=' and strip(s_['l']).get('k') == 'ref' and strip(s_['l']).get('name') == 'inc_len':
-                from ..e2_dom import linear
-                lf = linear(s_['r'], lambda x: x['name'] if x.get('k') == 'ref' else None)
-                if lf and 'str_len' in lf:
-                    a, b = lf['str_len'], lf.get(1, 0)
-                    loc = locline(s_['loc'])
+        from ..e2_dom import linear
+        # by role: the length variable is the one handed to Quote as its byte count; the reserve is the argument of
+        # the Grow() call in the block of that Quote call, resolved through the locals it names
+        for bid, i, s, e in g.walk():
+            if e.get('k') == 'call' and e.get('cname') == 'Quote' and len(e.get('args') or []) >= 2:
+                ln = strip(e['args'][1])
+                if ln is None or ln.get('k') != 'ref':
+                    continue
+                defs_ = {}
+                for b2, i2, s2 in g.stmts():
+                    s2_ = strip(s2)
+                    if b2 != bid or not isinstance(s2_, dict):
+                        continue
+                    if s2_.get('k') == 'bin' and s2_['op'] == '=' and strip(s2_['l']) is not None and strip(s2_['l']).get('k') == 'ref':
+                        defs_[strip(s2_['l'])['id']] = s2_['r']
+                    if s2_.get('k') == 'decl':
+                        for vd in s2_['vars']:
+                            if vd.get('init') is not None:
+                                defs_[vd['id']] = vd['init']
+
+                def sym(x, depth=0):
+                    if x.get('k') == 'ref':
+                        if x.get('id') == ln['id']:
+                            return 'LEN'
+                        return None
+                    return None
+
+                def resolve(x, depth=0):
+                    x0 = strip(x)
+                    if x0 is not None and x0.get('k') == 'ref' and x0.get('id') != ln['id'] and x0.get('id') in defs_ and depth < 4:
+                        return resolve(defs_[x0['id']], depth + 1)
+                    return x
+                for b2, i2, s2, e2 in g.walk():
+                    if b2 == bid and e2.get('k') == 'call' and e2.get('cname') == 'Grow' and e2.get('args'):
+                        lf = linear(resolve(e2['args'][0]), sym)
+                        if lf and 'LEN' in lf:
+                            a, b = lf['LEN'], lf.get(1, 0)
+                            loc = locline(e2['loc'])
         break
     rep.require(a is not None, 'C09.c: reserve formula of the serializer not bound')
     if a is None:
